@@ -74,6 +74,8 @@ def make_env(name, cfg):
         return lambda k, y: float(np.sum(np.cos(3.0 * (4.0 * u(y) - 2.0))))
     if name == "sym":
         return lambda k, y: float(np.sum(np.abs(u(y) - 0.5)))
+    if name == "sqrt":      # slopes grow without bound at small scale around u = 0.37
+        return lambda k, y: float(np.sum(np.sqrt(np.abs(u(y) - 0.37))))
     if name == "sin":
         return lambda k, y: float(np.sum(np.sin(7.0 * u(y)) + 0.3 * u(y)))
     raise KeyError(name)
